@@ -1065,6 +1065,21 @@ def analyse(gen_text, origins, res, gen):
                 if li and li.get("fn"):
                     fn = li["fn"]
                     break
+        if fn is None:
+            # e.g. the postcondition is the one declared on the stand-in trait method (in a shim): the exit span is in the function
+            for s in sec + prim:
+                f2 = fn_of_line(s["line_start"] - 1)
+                if f2:
+                    fn = f2
+                    break
+        if lab is None:
+            for s in prim + sec:
+                k = s["line_start"] - 1
+                if 0 <= k < len(origins):
+                    sh = [x for x in origins[k] if x[0] == "shim"]
+                    if sh:
+                        lab = f"{sh[0][1]}::contract_declared_on_the_trait_method"
+                        break
         src = src_of(pl) if pl is not None else None
         text = lines[pl].strip() if pl is not None and pl < len(lines) else ""
         canary = None
